@@ -30,6 +30,10 @@ def long_vectors(path, seed, n, maxlen):
         evs.append({"data": [65], "early": early, "clr": 0})
         evs.append({"data": [65, 66, 67], "early": early, "clr": 2})
         evs.append({"data": [1, 2, 3, 4, 5, 6, 7], "early": early, "clr": 6})
+    # the same without any DecodeParms (EarlyChange at its default)
+    evs.append({"data": [65], "early": 1, "clr": 0, "bare": True})
+    evs.append({"data": [65, 66, 67], "early": 1, "clr": 2, "bare": True})
+    evs.append({"data": [rnd.randrange(256) for _ in range(400)], "early": 1, "clr": 97, "bare": True})
     vlib.write_ndjson(path, evs)
 
 
